@@ -93,6 +93,13 @@ pub fn check_bytes(bytes: &[u8], cuts: &[usize], max_read: usize) -> Result<(boo
     let reads = rdr.reads;
     let a = outcome(&by_slice);
     let b = outcome(&by_reader);
+    {
+        let mut rdr = Chunked { data: bytes, pos: 0, cuts, max_read, reads: 0 };
+        let alias = dec_with("DecodedMap::from_reader", || DecodedMap::from_reader(&mut rdr))?;
+        if outcome(&alias) != b {
+            return Err(format!("DecodedMap::from_reader and decode(reader) differ (cuts {cuts:?}, max_read {max_read})"));
+        }
+    }
     match (&a, &b) {
         (Err(()), Err(())) => {}
         (Ok(x), Ok(y)) => {
